@@ -401,6 +401,8 @@ structure ForkBlock where
 structure Own where
   head : Nat
   blockAt : Nat → Option Bool
+  /-- `GetBlockHeaderByHeight(h) ≠ nil` -/
+  headerKnown : Nat → Bool
 
 inductive ForkRes where
   | errEmpty | notConsecutive | outsideOwn | lessProposed | worseSeed | okBigger | okBetter | panic
@@ -434,6 +436,36 @@ def checkForkSize (own : Own) (fork : List ForkBlock) (seedBetter : Bool) : Fork
           | some _ => if seedBetter then .okBetter else .worseSeed
   | _, _ => .errEmpty
 
+/-- `sortBlocks` :108: stable sort by height (insertion sort) -/
+def insertByHeight (b : ForkBlock) : List ForkBlock → List ForkBlock
+  | [] => [b]
+  | a :: t => if b.height ≤ a.height then b :: a :: t else a :: insertByHeight b t
+
+def sortBlocks : List ForkBlock → List ForkBlock
+  | [] => []
+  | a :: t => insertByHeight a (sortBlocks t)
+
+inductive ProcRes where
+  | noBlocks                          -- "common height is not found"
+  | forkSmaller (why : ForkRes)       -- checkForkSize refused
+  | unknownCommon                     -- ValidateSubChain: the block below the fork is not on the own chain
+  | subchain (commonHeight : Nat)     -- handed to block-by-block validation (each block through `validateBlock`)
+  | panic
+  deriving Repr, DecidableEq
+
+/-- `processBlocks` :73 up to the per-block validation of `ValidateSubChain` (blockchain.go:2699) -/
+def processBlocks (own : Own) (blocks : List ForkBlock) (seedBetter : Bool) : ProcRes :=
+  match sortBlocks blocks with
+  | [] => .noBlocks
+  | first :: rest =>
+    match checkForkSize own (first :: rest) seedBetter with
+    | .panic => .panic
+    | .okBigger | .okBetter =>
+      let common := pred64 first.height                          -- :90 forkBlocks[0].Block.Height() - 1
+      if own.headerKnown common then .subchain common            -- blockchain.go:2700 (GetBlockHeaderByHeight ≠ nil)
+      else .unknownCommon
+    | e => .forkSmaller e
+
 /-- the loop as it was before the consecutive/unknown-height tests were added (finding F15) -/
 def forkLoopOld (own : Own) (fork : List ForkBlock) : Nat → Nat → Nat → Nat → Nat → ForkRes ⊕ (Nat × Nat)
   | 0, _, _, fp, op => .inr (fp, op)
@@ -453,6 +485,17 @@ def modelledSites : List (String × String) := [
   ("blockchain/types:Header.Height", "EmptyBlockHeader"),
   ("blockchain/types:Header.Hash", "ProposedHeader"),
   ("blockchain/types:Header.Hash", "EmptyBlockHeader"),
+  ("blockchain/types:Header.ParentHash", "ProposedHeader"),
+  ("blockchain/types:Header.ParentHash", "EmptyBlockHeader"),
+  ("blockchain/types:Header.Flags", "EmptyBlockHeader"), ("blockchain/types:Header.Flags", "ProposedHeader"),
+  ("blockchain/types:Header.Seed", "EmptyBlockHeader"), ("blockchain/types:Header.Seed", "ProposedHeader"),
+  ("blockchain/types:Header.Root", "EmptyBlockHeader"), ("blockchain/types:Header.Root", "ProposedHeader"),
+  ("blockchain/types:Header.IdentityRoot", "EmptyBlockHeader"), ("blockchain/types:Header.IdentityRoot", "ProposedHeader"),
+  ("blockchain/types:Header.Time", "EmptyBlockHeader"), ("blockchain/types:Header.Time", "ProposedHeader"),
+  ("blockchain/types:Header.Coinbase", "ProposedHeader"),
+  ("blockchain/types:Header.FeePerGas", "ProposedHeader"),
+  ("blockchain/types:Header.IpfsHash", "ProposedHeader"),
+  ("blockchain/types:Header.OfflineAddr", "ProposedHeader"),
   ("blockchain/types:Block.Height", "Header"),
   ("blockchain/types:Block.Height", "EmptyBlockHeader"),
   ("blockchain/types:Block.Height", "ProposedHeader"),
@@ -480,7 +523,7 @@ def modelledSites : List (String × String) := [
 
 /-- classes the expectation list may use for a site that is not in `modelledSites` -/
 def otherClasses : List String :=
-  ["nil-checked", "nil-safe-callee", "post-gate", "local-object", "stored-chain", "encoder", "tx-validator", "post-validate", "not-network"]
+  ["nil-checked", "nil-safe-callee", "post-gate", "local-object", "stored-chain", "encoder", "tx-validator", "post-validate", "not-network", "type-expr"]
 
 /-- classification of one census row -/
 def siteClassified (fn field cls : String) : Bool :=
